@@ -228,7 +228,24 @@ func mixCheck(stream []byte) string {
 	return refCompare(res.File, rf)
 }
 
+// mixCheckOpts: like mixCheck, with all decode options (formatting logger, unknown fields, unknown messages).
+func mixCheckOpts(stream []byte) string {
+	rf, err := refDecode(stream)
+	if err != nil || rf.expectError || rf.mayReject {
+		return ""
+	}
+	res := callEntry("Decode+options", bytes.NewReader(stream))
+	if res.Panic != "" {
+		return "panic: " + res.Panic
+	}
+	if res.Err != nil {
+		return "Decode with options rejects a valid stream: " + res.Err.Error()
+	}
+	return refCompare(res.File, rf)
+}
+
 type mixReplayT struct {
+	Opts   bool    `json:"with_options,omitempty"`
 	Mix    bool    `json:"mix"`
 	Ops    []mixOp `json:"ops,omitempty"`
 	Word   string  `json:"word,omitempty"`
@@ -244,6 +261,11 @@ func mixReplay(raw json.RawMessage) (string, bool, error) {
 	b, err := hex.DecodeString(r.Stream)
 	if err != nil {
 		return "", true, err
+	}
+	if r.Opts {
+		if msg := mixCheckOpts(b); msg != "" {
+			return "", true, fmt.Errorf("%s (all options): %s", r.Word, msg)
+		}
 	}
 	if msg := mixCheck(b); msg != "" {
 		return "", true, fmt.Errorf("%s: %s", r.Word, msg)
@@ -298,6 +320,17 @@ func mixFamily(w *vx.W, maxLen int) {
 				cp := append([]mixOp{}, full...)
 				w.Violation("mix", fmt.Sprintf("word [%s]: %s", mixWordString(cp), msg), mixReplayT{Mix: true, Ops: cp, Word: mixWordString(cp), Stream: hex.EncodeToString(stream)})
 			}
+			// with every decode option and a logger that formats what it is given: the reference prediction holds
+			// unchanged (logging or counting must not disturb decoding)
+			if probe == 1 {
+				w.Eval(1)
+				w.Trace(1)
+				w.Fam("mix-words-with-options", 1)
+				if msg := mixCheckOpts(stream); msg != "" {
+					cp := append([]mixOp{}, full...)
+					w.Violation("mix-with-options", fmt.Sprintf("word [%s] decoded with all options: %s", mixWordString(cp), msg), mixReplayT{Mix: true, Ops: cp, Word: mixWordString(cp), Stream: hex.EncodeToString(stream), Opts: true})
+				}
+			}
 			// twins (shorter words): the other byte order for every definition, and the other two header forms
 			if probe == 1 && len(word) < maxLen {
 				base := ""
@@ -328,7 +361,7 @@ func mixFamily(w *vx.W, maxLen int) {
 }
 
 func init() {
-	const t = " Shared mix family: all words up to length 3 (quick) / 4 (thorough) over {define(l, one of 13 shapes), data(l), compressed data(l) with a position-dependent time offset, compressed data(l) whose offset carries the other local type in its low nibble} for two local types — both byte orders, timestamp first / in the middle / absent, zero-field and developer-field definitions, an unknown message, unknown fields in a known message, signed, array and local-time fields, a message the file type does not host, a second file_id — each word also followed by a probe of every defined local type; the decoded File is compared message by message and field by field with a complete reference decoder (independent parser + value model + timestamp machine + reflection-derived router). Words shorter than the bound are also decoded in their twin forms (every definition in the other byte order; 12-byte header; 14-byte header with a zero CRC): same content as the original, and each judged by the reference decoder."
+	const t = " Shared mix family: all words up to length 3 (quick) / 4 (thorough) over {define(l, one of 13 shapes), data(l), compressed data(l) with a position-dependent time offset, compressed data(l) whose offset carries the other local type in its low nibble} for two local types — both byte orders, timestamp first / in the middle / absent, zero-field and developer-field definitions, an unknown message, unknown fields in a known message, signed, array and local-time fields, a message the file type does not host, a second file_id — each word also followed by a probe of every defined local type; the decoded File is compared message by message and field by field with a complete reference decoder (independent parser + value model + timestamp machine + reflection-derived router). Words shorter than the bound are also decoded in their twin forms (every definition in the other byte order; 12-byte header; 14-byte header with a zero CRC): same content as the original, and each judged by the reference decoder; every probed word once more with all decode options and a logger that formats its arguments."
 	for _, id := range []string{"C02", "C03", "C12", "C13"} {
 		vx.AppendRule(id, t)
 	}
